@@ -2369,6 +2369,8 @@ func runC19(c *ctx) {
 			}
 		}
 	}
+	// (5c) histories: several platforms from the same named definition, drivers fetched afterwards
+	nHist := runC19Histories(c, baseline, platNames, platDoc)
 	// (6) effect class: open the driver and judge every option where it acts (c19_effect.go)
 	nEffects := runC19Effects(c, baseline, platNames, platDoc)
 	// observations outside the property's quantifier (reported, never gating)
@@ -2477,7 +2479,7 @@ func runC19(c *ctx) {
 			fd.Case, fd.Detail = cur.line(), detail
 		}
 	}
-	res.TracesVsImpl = len(cases) + len(reuses) + nEffects
+	res.TracesVsImpl = len(cases) + len(reuses) + nEffects + nHist
 }
 
 func c19Pick2(r *vlib.Rng, a, b int) int {
